@@ -56,7 +56,7 @@ package clone
 //
 //@ schema N=2..21
 //@ lemma tuple{N}Def[<<i=1..N|, |A$i>> any](<<i=1..N|, |c$i fp.Clone[A$i]>>, t fp.Tuple{N}[<<i=1..N|, |A$i>>])
-//@   prop C18
+//@   prop C18 C14
 //@   ensures Eq(Tuple{N}(<<i=1..N|, |c$i>>).Clone(t), fp.Tuple{N}[<<i=1..N|, |A$i>>]{<<i=1..N|, |I$i: c$i.Clone(t.I$i)>>})
 //@   tag componentwise
 //@   ensures <<i=1..N| && |veriflaws.CloneIsCopy(c$i)>> ==> Eq(Tuple{N}(<<i=1..N|, |c$i>>).Clone(t), t)
